@@ -1,8 +1,16 @@
 import Ibx.Gen.Smtp
 import Ibx.Model.Smtp
 /-
-  T1 tie for the SMTP session model: the facts regenerated from pkg/server/smtp/handler.go and
-  pkg/message/manager.go on every run are the ones Ibx/Model/Smtp.lean was written from.
+  T1 tie for the SMTP session model: the facts regenerated from pkg/server/smtp and pkg/message/manager.go on every
+  run are the ones Ibx/Model/Smtp.lean was written from.  The facts are structural (harness/cmd/extract/k1kit.go,
+  smtp.go): handlers and helpers are found by what they do (the state dispatch of the command loop, the method that
+  writes a reply, the one that assigns the state, the one RSET calls), expressions are rendered canonically
+  ($s session, $r receiver, $cmd / $arg the handler's parameters, $p a parameter, $v / $pv a re-assigned local /
+  parameter, single-assignment locals replaced by their definitions, helpers of the package looked through), and an
+  exit of a handler is the list of its replies (send:code), calls of interest and state changes with the guard [c]
+  under which it is taken.  Renaming locals or helpers, extracting or inlining a helper, merging nested ifs into &&
+  or rewording a reply / log text leaves every fact unchanged; changing a code, a comparison, an order or a guard
+  does not.
 -/
 namespace Ibx.Tie.Smtp
 open Ibx Ibx.Model.Smtp
@@ -10,20 +18,67 @@ open Ibx Ibx.Model.Smtp
 /-- the model's command table is the source's `commands` map -/
 theorem commands_tie : Gen.Smtp.commands.map Bytes.ofAscii = commandNames := by decide
 
+/-- the command loop hands GREET, READY and MAIL to a handler(cmd, arg); LOGIN / PASSWORD / DATA do not read a command -/
+theorem dispatchStates_tie : Gen.Smtp.dispatchStates = ["GREET", "READY", "MAIL"] := by decide
 theorem anyState_tie : Gen.Smtp.anyStateCases =
     [["SEND", "SOML", "SAML", "EXPN", "HELP", "TURN"], ["VRFY"], ["NOOP"], ["RSET"], ["QUIT"]] := by decide
 theorem notImplemented_tie : (Gen.Smtp.anyStateCases.headD []).map Bytes.ofAscii = notImplemented := by decide
 theorem greetCases_tie : Gen.Smtp.greetCases = [["HELO"], ["EHLO"], ["<default>"]] := by decide
 theorem readyCases_tie : Gen.Smtp.readyCases = [["STARTTLS"], ["AUTH"], ["MAIL"], ["EHLO"], ["<default>"]] := by decide
-theorem mailCases_tie : Gen.Smtp.mailCases = [["RCPT"], ["DATA"], ["EHLO"]] := by decide
+/-- (the 503 behind the MAIL table counts as its default clause) -/
+theorem mailCases_tie : Gen.Smtp.mailCases = [["RCPT"], ["DATA"], ["EHLO"], ["<default>"]] := by decide
 theorem authCases_tie : Gen.Smtp.authCases = [["PLAIN"], ["LOGIN"], ["<default>"]] := by decide
+/-- the AUTH method is the first of at most three space-separated words of the argument -/
+theorem authTag_tie : Gen.Smtp.authTag = "strings.SplitN($arg, \" \", 3)[0]" := by decide
+
+/-- the transition table of DESIGN.md C.1 as the source has it: for every clause of the any-state table (`*`) and of
+    the GREET / READY / MAIL tables its exits — the replies by code, the calls of the address policy and of the
+    extension hooks, the changes of state, sender and recipient list, in execution order, each under the guards that
+    lead to it (`Model.Smtp.handleLine`; the relation `Lemmas.Smtp.Step`).  What the MAIL handler does behind its
+    table is `<after>` (503).  Found through the structure of the package: no local, parameter or helper name and no
+    reply / log text takes part. -/
+theorem transitions_tie : Gen.Smtp.transitions =
+    [
+     ("*", "SEND,SOML,SAML,EXPN,HELP,TURN", ["send:502; continue"]),
+     ("*", "VRFY", ["send:252; continue"]),
+     ("*", "NOOP", ["send:250; continue"]),
+     ("*", "RSET", ["reset; send:250; continue"]),
+     ("*", "QUIT", ["send:221; state:QUIT; continue"]),
+     ("GREET", "HELO", ["[$h($arg)#1 != nil]; send:501; return", "send:250; state:READY; return"]),
+     ("GREET", "EHLO", ["[$h($arg)#1 != nil]; send:501; return", "send:250-; send:250-; send:250-; ?[$r.Server.config.TLSEnabled][!$r.Server.config.ForceTLS][$r.Server.tlsConfig != nil][$r.tlsState == nil]send:250-; send:250; state:READY; return"]),
+     ("GREET", "<default>", ["send:503; return"]),
+     ("READY", "STARTTLS", ["[!$r.Server.config.TLSEnabled]; send:454; return", "[$r.tlsState != nil]; send:454; return", "send:220; state:GREET; return"]),
+     ("READY", "AUTH", ["[strings.SplitN($arg, \" \", 3)[0] == \"PLAIN\"]; [len(strings.SplitN($arg, \" \", 3)) != 2]; send:500; return", "[strings.SplitN($arg, \" \", 3)[0] == \"PLAIN\"]; send:235; return", "[strings.SplitN($arg, \" \", 3)[0] == \"LOGIN\"]; send:334; state:LOGIN; return", "[default]; send:500; return"]),
+     ("READY", "MAIL", ["[fromRegex.FindStringSubmatch($arg) == nil]; send:501; return", "[fromRegex.FindStringSubmatch($arg)[2] != \"\"]; [!$h(fromRegex.FindStringSubmatch($arg)[2])#1]; send:501; return", "[fromRegex.FindStringSubmatch($arg)[2] != \"\"]; [$h(fromRegex.FindStringSubmatch($arg)[2])#0[\"SIZE\"] != \"\"]; [strconv.ParseInt($h(fromRegex.FindStringSubmatch($arg)[2])#0[\"SIZE\"], 10, 32)#1 != nil]; send:501; return", "[fromRegex.FindStringSubmatch($arg)[2] != \"\"]; [$h(fromRegex.FindStringSubmatch($arg)[2])#0[\"SIZE\"] != \"\"]; [int(strconv.ParseInt($h(fromRegex.FindStringSubmatch($arg)[2])#0[\"SIZE\"], 10, 32)#0) > $r.config.MaxMessageBytes]; send:552; return", "call:ParseOrigin; [ParseOrigin(..)#1 != nil]; send:501; return", "call:ParseOrigin; emit:BeforeMailFromAccepted; [$v == event.ActionDeny]; send:*; return", "call:ParseOrigin; emit:BeforeMailFromAccepted; set:from=ParseOrigin(..)#0; call:ShouldAccept; [$v == event.ActionDefer]; [!ShouldAccept(..)]; send:501; return", "call:ParseOrigin; emit:BeforeMailFromAccepted; set:from=ParseOrigin(..)#0; call:ShouldAccept; send:250; state:MAIL; return"]),
+     ("READY", "EHLO", ["reset; send:250; return"]),
+     ("READY", "<default>", ["send:503; return"]),
+     ("MAIL", "RCPT", ["[len($arg) < 4 || strings.ToUpper($arg[0:3]) != \"TO:\"]; send:501; return", "call:NewRecipient; [NewRecipient(..)#1 != nil]; send:501; return", "call:NewRecipient; emit:BeforeRcptToAccepted; [$v == event.ActionDeny]; send:*; return", "call:NewRecipient; emit:BeforeRcptToAccepted; call:ShouldAccept; [$v == event.ActionDefer]; [!ShouldAccept(..)]; send:550; return", "call:NewRecipient; emit:BeforeRcptToAccepted; call:ShouldAccept; [len($rcpts) >= $r.config.MaxRecipients]; send:552; return", "call:NewRecipient; emit:BeforeRcptToAccepted; call:ShouldAccept; set:rcpts=append($rcpts, NewRecipient(..)#0); send:250; return"]),
+     ("MAIL", "DATA", ["[$arg != \"\"]; send:501; return", "[len($rcpts) == 0]; send:503; return", "state:DATA; return"]),
+     ("MAIL", "EHLO", ["reset; send:250; return"]),
+     ("MAIL", "<default>", ["send:503; return"])] := by decide +kernel
 
 /-- reset() keeps a session that has not greeted in GREET (repaired defect F-03) -/
 theorem resetFromGreet_tie : Gen.Smtp.resetFromGreet = "keepsGreet" := by decide
 /-- the DATA phase enforces MaxMessageBytes (repaired defect F-06), and resets on each of its three exits -/
 theorem dataSizeCheck_tie : Gen.Smtp.dataSizeCheck = "afterRead" := by decide
 theorem dataHandlerResets_tie : Gen.Smtp.dataHandlerResets = 3 := by decide
-theorem rcptLimitTest_tie : Gen.Smtp.rcptLimitTest = (">=", "s.config.MaxRecipients") := by decide
+/-- the four exits of the DATA phase (`Model.Smtp.handleData`): read error → (221 on timeout) QUIT; oversized → 552,
+    reset; Deliver failed → 451, reset; otherwise 250, reset — in this order, with these guards -/
+theorem dataPaths_tie : Gen.Smtp.dataPaths =
+    ["send:354; ?call:ReadDotBytes; [$h()#1 != nil]; ?[$h()#1.(net.Error)#1][$h()#1.(net.Error)#0.Timeout()]send:221; state:QUIT; return",
+     "send:354; ?call:ReadDotBytes; [len(ReadDotBytes(..)#0) > $r.config.MaxMessageBytes]; send:552; reset; return",
+     "send:354; ?call:ReadDotBytes; call:Deliver; [Deliver(..) != nil]; send:451; reset; return",
+     "send:354; ?call:ReadDotBytes; call:Deliver; send:250; reset; return"] := by decide +kernel
+theorem rcptLimitTest_tie : Gen.Smtp.rcptLimitTest = (">=", "MaxRecipients") := by decide
+/-- the six exits of RCPT (`Model.Smtp.handleRcpt`): syntax 501, address 501, extension deny, relay 550 (only when the
+    extension deferred), limit 552 (after the hook and the policy, before the append), accepted 250 after the append -/
+theorem rcptPaths_tie : Gen.Smtp.rcptPaths =
+    ["[len($arg) < 4 || strings.ToUpper($arg[0:3]) != \"TO:\"]; send:501; return",
+     "call:NewRecipient; [NewRecipient(..)#1 != nil]; send:501; return",
+     "call:NewRecipient; emit:BeforeRcptToAccepted; [$v == event.ActionDeny]; send:*; return",
+     "call:NewRecipient; emit:BeforeRcptToAccepted; call:ShouldAccept; [$v == event.ActionDefer]; [!ShouldAccept(..)]; send:550; return",
+     "call:NewRecipient; emit:BeforeRcptToAccepted; call:ShouldAccept; [len($rcpts) >= $r.config.MaxRecipients]; send:552; return",
+     "call:NewRecipient; emit:BeforeRcptToAccepted; call:ShouldAccept; set:rcpts=append($rcpts, NewRecipient(..)#0); send:250; return"] := by decide +kernel
 theorem rcptArgMin_tie : Gen.Smtp.rcptArgMin = some ("<", 4) := by decide
 theorem cmdMinLen_tie : Gen.Smtp.cmdMinLen = some ("<", 4) := by decide
 
@@ -35,8 +90,20 @@ theorem argsRegex_tie : Gen.Smtp.argsRegex = some " (\\w+)=(\\w+|<>)" := by deci
 
 /-- every index / slice expression of handler.go is one the model accounts for (guards proved in Props.C03) -/
 theorem sliceSites_tie : Gen.Smtp.sliceSites =
-    ["arg[0:3]", "arg[3:]", "arg[:idx]", "args[\"SIZE\"]", "args[0]", "args[1]", "args[strings.ToUpper(m[1])]",
-     "commands[cmd]", "line[0:l]", "line[l+1:]", "m[1]", "m[2]"] := by decide
+    ["$arg[0:3]",
+     "$arg[3:]",
+     "$arg[:strings.IndexRune($arg, ' ')]",
+     "$each(regexp.MustCompile(\" (\\\\w+)=(\\\\w+|<>)\").FindAllStringSubmatch(fromRegex.FindStringSubmatch($arg)[2], -1))[1]",
+     "$each(regexp.MustCompile(\" (\\\\w+)=(\\\\w+|<>)\").FindAllStringSubmatch(fromRegex.FindStringSubmatch($arg)[2], -1))[2]",
+     "$h(fromRegex.FindStringSubmatch($arg)[2])#0[\"SIZE\"]",
+     "$pv[$v + 1:]",
+     "$pv[0:$v]",
+     "$res[strings.ToUpper($each(regexp.MustCompile(\" (\\\\w+)=(\\\\w+|<>)\").FindAllStringSubmatch(fromRegex.FindStringSubmatch($arg)[2], -1))[1])]",
+     "commands[$cmd]",
+     "fromRegex.FindStringSubmatch($arg)[1]",
+     "fromRegex.FindStringSubmatch($arg)[2]",
+     "strings.SplitN($arg, \" \", 3)[0]",
+     "strings.SplitN($arg, \" \", 3)[1]"] := by decide +kernel
 
 /-- the statements of StoreManager.Deliver the model mirrors are all present -/
 theorem deliverShape_tie : Gen.Smtp.deliverShape.length = 8 := by decide
